@@ -106,7 +106,7 @@ def run(prog, rep, tier):
                 moe = [fs]
         rep.ob('R19.1', ok, 'R19.1|mlar::keygen|generator-selection', 'generator = seed.map_or_else(ChaCha20Rng::from_os_rng, seeded closure) feeds generate_keypair' if ok else
                'keygen does not select between from_os_rng and the seeded generator as documented', kg.loc(moe[0].idx) if moe else kg.loc())
-        check_outputs(kg, rep, 'R19.1', gk)
+        check_outputs(kg, rep, 'R19.1', gk, prog)
 
     # ---------------- R19.2 derive step
     hk = [b for b in mlar.bodies if any(c.term.cmethod == 'new' and 'hkdf::Hkdf' in c.term.cargs for c in b.calls())]
@@ -171,7 +171,7 @@ def run(prog, rep, tier):
             msg = 'per path: ChaCha20Rng::from_seed(apply_derive(path, secret)) -> generate_keypair -> secret = parse(private_der)' if ok else \
                 'derivation chain differs (in-loop=%s chacha20=%s seed=%s gen=%s reparse=%s secret-chain=%s paths=%s)' % (inl, okt, okseed, okgen, okre, oksec, okpath)
         rep.ob('R19.3', ok, 'R19.3|mlar::keyderive|chain', msg, kd.loc())
-        check_outputs(kd, rep, 'R19.3', gk)
+        check_outputs(kd, rep, 'R19.3', gk, prog)
 
     # ---------------- R19.4 key pair from generator bytes
     gp = one_body(prog, rep, 'R19.4', 'curve25519-parser', exact='generate_keypair')
@@ -230,10 +230,16 @@ def run(prog, rep, tier):
                'DER prefix %s is %s, documented %s' % (cname, got.hex() if got else None, want), '-')
 
 
-def check_outputs(body, rep, rule, gk):
+def check_outputs(body, rep, rule, gk, prog=None):
     """the two write_all calls write public_as_pem() / private_der of the generated pair"""
     if len(gk) != 1:
         return
+    if prog is not None:
+        # the writes may sit in a private helper shared by keygen and keyderive: examine the function with such helpers spliced in
+        from ..inline import inlined_body
+        gkt = gk[0].term
+        body = inlined_body(prog, body, skip=('apply_derive',))
+        gk = [b for b in body.calls() if b.term is gkt or (cnorm(b.term) == cnorm(gkt) and b.idx == gk[0].idx)] or gk
     ws = [b for b in body.calls() if b.term.cmethod == 'write_all' and b.term.ctrait == 'std::io::Write']
     kinds = set()
     for w in ws:
